@@ -746,7 +746,9 @@ var mutators = []mutator{
 		return true
 	}},
 	{"extension.number-outside-range", func(g *gWorkspace, r *vlib.RNG) bool {
-		_, m := pickMsg(g, r, func(f *gFile, m *gMsg) bool { return f.Syntax == "proto2" && len(m.ExtRange) > 0 && m.ExtRange[len(m.ExtRange)-1][1] < 100000 })
+		_, m := pickMsg(g, r, func(f *gFile, m *gMsg) bool {
+			return f.Syntax == "proto2" && len(m.ExtRange) > 0 && m.ExtRange[len(m.ExtRange)-1][1] < 100000
+		})
 		if m == nil {
 			return false
 		}
